@@ -144,6 +144,13 @@ class Gen:
         self.classes.add(state.split(":")[0])
 
 
+def rand_aw(r, d, ty):
+    """own copy (tools/gridlib.py is shared and changes)"""
+    if "tensor" in ty:
+        return []
+    return [r.randint(1, 3) for _ in range(d)] + ([r.randint(0, 2) for _ in range(d)] if "curved" in ty else [])
+
+
 def rand_outs(r):
     return r.choice([0, 1, 1, 1, 2, 2, 3])
 
@@ -154,7 +161,8 @@ def cand_cmd(r, spec, slot="{s}"):
     if fam in ("localp", "wavelet"):
         return "cand %s surp %s %s %d%s" % (slot, vlib.hexf(r.choice([0.0, 1e-3, 1e-1, 1.0])), r.choice(gl.REFINE), r.choice([-1] + list(range(o))), ll)
     ty = r.choice(["level", "iptotal", "ipcurved", "qptotal", "iphyperbolic", "tensor", "hyperbolic"])
-    return "cand %s aw %s aw: %s%s" % (slot, ty, " ".join(map(str, gl.rand_aw(r, d, ty))), ll)
+    aw = [r.randint(1, 3) for _ in range(d)] + ([r.randint(0, 2) for _ in range(d)] if "curved" in ty else [])     # the weights are mandatory here
+    return "cand %s aw %s aw: %s%s" % (slot, ty, " ".join(map(str, aw)), ll)
 
 
 def refine_cmd(r, spec, slot="g"):
